@@ -121,3 +121,82 @@ def replay_position(run, pid, cmd, also=()):
     results = vcommon.validate_shards("TraceRules", "TraceRules.cfg", files)
     judge(run, pid, results, also)
     shutil.rmtree(d, ignore_errors=True)
+
+
+def family_direction_a(run, pid, kinds, sample, fams=("castle", "ep", "promo")):
+    """Direction spec -> code: TLC enumerates a geometric family from Chess.tla and prints what the rules say for every
+    member; the harness builds each member directly into a BoardState, runs the real generator / is_check and compares.
+    kinds: which mismatch kinds belong to this property (moveset -> C01, caps -> C13, check -> C06)."""
+    h = vcommon.build_harness()
+    d = trace_dir(pid + "-fam")
+    total = {"members": 0, "states": 0}
+    for fam in fams:
+        smp = sample.get(fam, 1)
+        r = vcommon.tlc("Fam", "Fam.cfg", env={"FAMILY": fam, "SAMPLE": str(smp), "OFFSET": str(vcommon.seed() % smp)}, workers=vcommon.NCPU,
+                        xmx="8g", timeout=3000)
+        if not r["ok"]:
+            raise ToolError("family enumeration failed:\n" + r["out"][-2000:])
+        path = os.path.join(d, fam + ".ndjson")
+        n = 0
+        with open(path, "w") as f:
+            for pr in vcommon.tlc_prints(r["out"], "FAM"):
+                f.write(pr[1] + "\n")
+                n += 1
+        if n == 0:
+            raise ToolError("coverage hole: family %s has no members" % fam)
+        res = vcommon.run_harness(h, ["famreplay", "--in", path])
+        run.add("states", r["distinct"])
+        run.add("transitions", r["states"])
+        run.cov.setdefault("families_from_spec", {})[fam] = {"members_replayed": res["members"], "sample": "1/%d" % smp, "exhaustive": smp == 1,
+                                                             "tlc_states": r["distinct"], "nontrivial": res["nontrivial"]}
+        total["members"] += res["members"]
+        if fam == fams[0]:
+            first = json.loads(open(path).readline())
+            run.sample({"family": fam, "member": chessutil.s_to_fen(first["pos"]), "rules_say_legal": [chessutil.move_name(m) for m in first["legal"]][:30]})
+        for mm in res["mismatches"]:
+            if mm["kind"] in kinds or mm["kind"] == "panic":
+                fen = chessutil.s_to_fen(mm["pos"])
+                if mm["kind"] == "moveset-after":
+                    mv = chessutil.move_name(mm["after"])
+                    run.violation("family-moveset-after:%s:%s:%s" % (fam, fen.replace(" ", "_"), mv),
+                                  "generated moves after %s differ from the rules at %s: extra %s missing %s" % (mv, fen, mm["extra"], mm["missing"]),
+                                  {"type": "walk", "fen": fen, "texts": [mv], "capsfrom": -1})
+                    continue
+                run.violation("family-%s:%s:%s" % (mm["kind"], fam, fen.replace(" ", "_")), "%s differs from the rules at %s: %s" % (
+                    mm["kind"], fen, {k: v for k, v in mm.items() if k not in ("pos", "kind")}),
+                    {"type": "walk", "fen": fen, "texts": [], "capsfrom": 0 if mm["kind"] == "caps" else -1})
+    run.add("traces_validated_against_impl", total["members"])
+    shutil.rmtree(d, ignore_errors=True)
+    return total
+
+
+def games_direction_a(run, pid, kinds, seconds, maxn=40):
+    """Direction spec -> code: games simulated by TLC from Chess.tla (Games.tla), replayed through the text applier."""
+    h = vcommon.build_harness()
+    d = trace_dir(pid + "-games")
+    seeds = os.path.join(d, "seeds.ndjson")
+    with open(seeds, "w") as f:
+        for x in open(os.path.join(vcommon.VERIF, "harness", "seeds.txt")):
+            if x.strip():
+                s = chessutil.fen_to_s(x.strip())
+                f.write(json.dumps({k: s[k] for k in ("r", "stm", "cr", "ep")}) + "\n")
+    r = vcommon.tlc("Games", "Games.cfg", env={"SEEDS": seeds, "MAXN": str(maxn)}, workers=vcommon.NCPU, xmx="4g", timeout=seconds,
+                    extra=["-simulate", "-depth", str(maxn + 5), "-seed", str(vcommon.seed())])
+    games = vcommon.tlc_prints(r["out"], "GAME")
+    if len(games) < 20:
+        raise ToolError("game simulation produced too few games:\n" + r["out"][-1500:])
+    path = os.path.join(d, "games.ndjson")
+    with open(path, "w") as f:
+        for g in games:
+            f.write(g[1] + "\n")
+    res = vcommon.run_harness(h, ["gamereplay", "--in", path])
+    run.cov["games_from_spec"] = {"games": res["games"], "plies": res["plies"], "promotion_moves": res["promotions"], "tlc_simulation_s": seconds}
+    run.add("traces_validated_against_impl", res["games"])
+    g0 = json.loads(games[0][1])
+    run.sample({"tlc_game": "position fen %s moves %s" % (g0["fen"], " ".join(g0["texts"][:12]))})
+    for mm in res["mismatches"]:
+        k = mm["kind"]
+        if k in kinds:
+            run.violation("game-%s:%s" % (k, mm["cmd"].replace(" ", "_")[:400]), "%s in a TLC-generated game at prefix %s (%s)" % (k, mm.get("prefix"), mm.get("text")),
+                          {"type": "position", "cmd": mm["cmd"]})
+    shutil.rmtree(d, ignore_errors=True)
